@@ -785,6 +785,22 @@ func checkC02ConflictScope(w *World, r *Report) {
 			}
 			return true
 		})
+		// switch form: `switch cPrefix[i] { case '/': break Label; case '{', '*': return ... }`
+		ast.Inspect(fs.Body, func(m ast.Node) bool {
+			sw, ok := m.(*ast.SwitchStmt)
+			if !ok || sw.Tag == nil || !strings.HasSuffix(exprStr(sw.Tag), "[i]") {
+				return true
+			}
+			for _, st := range sw.Body.List {
+				cc := st.(*ast.CaseClause)
+				if len(cc.Body) == 1 && len(cc.List) == 1 {
+					if br, ok := cc.Body[0].(*ast.BranchStmt); ok && br.Tok == token.BREAK && br.Label != nil {
+						delim = exprStr(cc.List[0])
+					}
+				}
+			}
+			return true
+		})
 		var wantGreater bool
 		switch delim {
 		case "'/'", "slashDelim":
